@@ -83,7 +83,7 @@ type Step struct {
 	Args []*CExpr
 	When *CExpr
 	As   string // invoke f(args) as name: the closure's first result is bound to name for the ensures clauses (only without when/star)
-	Star bool // invoke*: the function value may be invoked any number of times (caller-side `call ... invariant` clauses are the loop invariants)
+	Star bool   // invoke*: the function value may be invoked any number of times (caller-side `call ... invariant` clauses are the loop invariants)
 	Src  string
 	File string
 	Line int
